@@ -138,10 +138,12 @@ _pb("C11", "contract-based deductive verification (pyvc) of filter_by_length and
     "numbered 1..n end up numbered 1..n-1 in the same order. The transformations that call it repeatedly (on a tree that "
     "changes between the calls), insertion / substitution and trace handling are bounded only.",
     "proof for filter_by_length and delete_terminal, bounded stand-in for the rest; 'other'")
-_pb("C12", "contract-based deductive verification (pyvc): lemma over the contract of lca (two distinct tokens always have a constituent lca that dominates both) + mover step of root_attach; bounded stand-in against the set-based reference",
+_pb("C12", "contract-based deductive verification (pyvc): lemmas over the contracts of lca and terminals (the target exists, is a constituent dominating both neighbours, and does not lie at or below the moved child) + mover step of root_attach; bounded stand-in against the set-based reference",
     "root_attach's target is never None and is a constituent dominating both neighbours (lemma over the proved lca "
-    "contract), and its re-attachment step keeps links consistent (block contract). That the result equals the documented "
-    "rule is bounded only (set-based reference).",
+    "contract); it is neither the moved child nor below it, so the re-attachment creates no cycle (lemma over the "
+    "contracts of terminals - complete and ordered - and lca, with the proved ancestor lemma); and the re-attachment step "
+    "keeps links consistent (block contract). That the result equals the documented rule is bounded only (set-based "
+    "reference).",
     "lemmas + block contract proved, equality with the reference bounded; 'other'")
 _pb("C20", "contract-based deductive verification (pyvc + cvc5 strings) of parse_label, format_label, get_label and the round-trip / completeness lemmas; bounded exhaustive strings as cross-check",
     "parse_label: parts glue back to the input (default literals may be absent), component shapes, trace iff starred, "
